@@ -196,6 +196,11 @@ func formatFile(file *ast.File) {
 		scope:   types.NewScope(nil, token.NoPos, token.NoPos, ""),
 	}
 	for _, decl := range file.Decls {
+		if v, ok := decl.(*ast.FuncDecl); ok && v.Recv == nil {
+			ctx.insert(v.Name.Name) // a function of the program may be named like a builtin (printf, echo, ...)
+		}
+	}
+	for _, decl := range file.Decls {
 		switch v := decl.(type) {
 		case *ast.FuncDecl:
 			// delay the process, because package level vars need to be processed first.
@@ -252,6 +257,7 @@ func formatGenDecl(ctx *formatCtx, v *ast.GenDecl) {
 		for _, item := range v.Specs {
 			spec := item.(*ast.TypeSpec)
 			formatType(ctx, spec.Type, &spec.Type)
+			ctx.insert(spec.Name.Name)
 		}
 	}
 }
